@@ -88,9 +88,10 @@ def gen_dem_case(rng):
         lo = np.array([float(rng.randint(-6, 0)) for _ in range(v)]); hi = lo + np.array([float(rng.randint(1, 9)) for _ in range(v)])
         X = np.array([[[float(rng.randint(int(lo[j]), int(hi[j]))) for j in range(v)] for _ in range(n)] for _ in range(1 + 2 * k)])
         xl, xu = lo - 0.5, hi + 0.5; kinds = ["half-integral"] * v; extra["xdtype"] = "int64"
-    if rng.random() < 0.25:
-        extra["prime"] = True
-    return {**extra, "api": "dem", "k": k, "F": rng.choice([0.5, 1.0, 2.0, 0.25]), "name": rng.choice(list(NAMES)), "X": [enc(m) for m in X],
+    if rng.random() < 0.3:
+        extra["prime"] = rng.choice([True, "inplace"])
+    Fs = [0.5, 1.0, 2.0, 0.25] + ([1, 2, 1, 2] if "xdtype" in extra else [1])      # integer-coded populations usually come with an integer F
+    return {**extra, "api": "dem", "k": k, "F": rng.choice(Fs), "name": rng.choice(list(NAMES)), "X": [enc(m) for m in X],
             "xl": enc(xl), "xu": enc(xu), "kinds": kinds, "seed": rng.randrange(2 ** 31)}
 
 
@@ -110,7 +111,10 @@ def run_dem(case):
         if case.get("prime") and tag == "Z":
             # the operator object has served a problem with a wider box before
             np.random.seed(case["seed"] + 7)
-            dem.do(Problem(n_var=v, n_obj=1, xl=xl - 1.0 - 0.5 * np.abs(xl), xu=xu + 2.0 + 0.5 * np.abs(xu)), Population.new("X", Xp.copy()), P)
+            prob0 = Problem(n_var=v, n_obj=1, xl=xl - 1.0 - 0.5 * np.abs(xl), xu=xu + 2.0 + 0.5 * np.abs(xu))
+            dem.do(prob0, Population.new("X", Xp.copy()), P)
+            if case["prime"] == "inplace":        # the same problem object, its bound arrays tightened in place
+                prob = prob0; prob.xl[:] = xl; prob.xu[:] = xu
         np.random.seed(case["seed"])
         with Recorder() as rec:
             off = dem.do(prob, pop, P)
